@@ -17,7 +17,7 @@ pub fn def() -> PropDef {
 fn run(r: &mut Run) -> Result<(), MachineryError> {
     let t = r.tier;
     let alpha = [SP, TAB, L, NL, CRLF, NB, L, SHY];
-    let n = t.pick(6, 7);
+    let n = t.pick(7, 9);
     let space = Space { name: "C19/texts".into(), menu: menu(&alpha), max_len: n, desc: format!("texts of length <= {} x 6 prefixes", n) };
     r.space(space, |seq, cx| {
         let s = build(seq, &alpha);
